@@ -43,8 +43,11 @@ def generate(seed, tier):
             else:
                 ops.append({'op': 'del', 'pick': rng.randint(0, 20)})
         same = rng.random() < 0.75
-        cases.append({'initial': initial, 'ops': ops, 'same': same,
-                      'sibling': same and rng.random() < 0.35})     # an explicit parent group elsewhere in the SAME file
+        sibling = same and rng.random() < 0.35                       # an explicit parent group elsewhere in the SAME file
+        cases.append({'initial': initial, 'ops': ops, 'same': same, 'sibling': sibling,
+                      # ... which holds datasets carrying the same leaf names as the sources (the standard layout:
+                      # results of Channel_000/Raw_Data placed in Channel_001, which has its own Raw_Data)
+                      'decoy': sibling and rng.random() < 0.5})
     if tier == 'thorough':
         vocab = [{'op': 'indexed', 'base': b} for b in ('A', 'A_B', 'A_A')] + \
                 [{'op': 'results', 'dset': d, 'tool': t} for d in ('Raw', 'Raw_Data') for t in ('Fit', 'Fitter')] + \
@@ -81,6 +84,9 @@ def run_impl(inp, work):
         P = f.create_group('P')
         mains = {d: _mk_main(P, d, anc) for d in DSETS}
         parent = (f.create_group('Archive') if inp.get('sibling') else P) if inp['same'] else f2.create_group('Q')
+        if inp.get('decoy'):
+            for d in DSETS:
+                _mk_main(parent, d, anc)
         for name, kind in inp['initial']:
             if kind == 'group':
                 parent.create_group(name)
@@ -126,7 +132,7 @@ def run_impl(inp, work):
         for k in listing:
             if isinstance(parent[k], h5py.Group) and '-' in k:
                 r = call(hdf_utils.get_source_dataset, parent[k])
-                sources[k] = {'ok': r[1].name.split('/')[-1]} if r[0] == 'ok' else {'err': r[1]}
+                sources[k] = {'ok': r[1].name.split('/')[-1], 'path': r[1].name} if r[0] == 'ok' else {'err': r[1]}
         return {'outs': outs, 'listing': listing, 'find': find, 'sources': sources,
                 'kinds': {k: ('group' if isinstance(parent[k], h5py.Group) else 'dataset') for k in listing}}
     finally:
@@ -195,8 +201,9 @@ def oracle(inp, obs):
         for n, tg in tags.items():
             if inp.get('sibling') and n in initial_names:
                 continue        # a group left elsewhere by an earlier session records no source: nothing to recover
-            if n in obs['sources'] and obs['sources'][n] != {'ok': tg[0]}:
-                fails.append('source-recovery: get_source_dataset(%s) gave %s, expected %s' % (n, obs['sources'][n], tg[0]))
+            if n in obs['sources'] and (obs['sources'][n].get('ok') != tg[0] or
+                                        obs['sources'][n].get('path', '/P/' + tg[0]) != '/P/' + tg[0]):
+                fails.append('source-recovery: get_source_dataset(%s) gave %s, expected /P/%s' % (n, obs['sources'][n], tg[0]))
     return fails
 
 
@@ -211,7 +218,7 @@ def nontrivial(inp, obs):
 
 def model_requests_obs(inp, obs):
     init = [{'name': n, 'kind': k} for n, k in inp['initial']]
-    if inp['same'] and not inp.get('sibling'):
+    if inp['same'] and (not inp.get('sibling') or inp.get('decoy')):
         init = init + [{'name': d, 'kind': 'dataset'} for d in DSETS]
     queries = [{'dset': d, 'tool': t} for d in DSETS for t in TOOLS]
     return [{'op': 'grp.run', 'initial': init, 'ops': _resolve_ops(inp, obs), 'queries': queries,
